@@ -4,6 +4,7 @@ import (
 	"fmt"
 	"go/constant"
 	"go/types"
+	"os"
 	"strings"
 
 	"golang.org/x/tools/go/ssa"
@@ -97,6 +98,10 @@ func (e *Env) parseType(name string) (types.Type, error) {
 		return types.Typ[types.Int64], nil
 	case "any":
 		return types.NewInterfaceType(nil, nil), nil
+	case "error":
+		return types.Universe.Lookup("error").Type(), nil
+	case "rune":
+		return types.Typ[types.Int32], nil
 	case "[]byte":
 		return types.NewSlice(types.Typ[types.Uint8]), nil
 	case "[]string":
@@ -196,12 +201,35 @@ func (e *Env) lookupName(name string) (*Val, error) {
 		if v, ok := vc.params[name]; ok {
 			return v, nil
 		}
+		// captured variables of a closure: the name denotes the current content of the captured cell
+		for _, fv := range vc.fn.FreeVars {
+			if fv.Name() == name {
+				p := vc.val(e.st, fv)
+				if pt, ok := p.T.Underlying().(*types.Pointer); ok && isStruct(pt.Elem()) {
+					return p, nil // struct variables are used through their reference
+				}
+				return vc.load(e.st, p), nil
+			}
+		}
 		if e.entryOnly {
 			// fall through to package-level names
 		} else if v, err := vc.resolveLocal(e, name); err == nil && v != nil {
 			return v, nil
 		} else if err != nil {
 			return nil, err
+		}
+	}
+	if name == "rangepos" && e.loop != nil {
+		// hidden byte position of a `for i, r := range someString` loop: at the header, the offset of the next rune
+		for b := range e.loop.blocks {
+			for _, in := range b.Instrs {
+				if nx, ok := in.(*ssa.Next); ok && nx.IsString {
+					key := "IT!" + nx.Iter.Name()
+					if vc.keys[key] != nil {
+						return &Val{T: tInt, S: vc.get(e.st, key)}, nil
+					}
+				}
+			}
 		}
 	}
 	// package-level constants and variables
@@ -262,6 +290,12 @@ func (vc *FnVC) resolveLocal(e *Env, name string) (*Val, error) {
 		if v, isVar := obj.(*types.Var); !isVar || v.IsField() || (v.Pkg() != nil && v.Parent() == v.Pkg().Scope()) {
 			continue // fields and package-level variables are not locals
 		}
+		if e.bodyLocals && vc.curInstr != nil && vc.curInstr.Pos().IsValid() && obj.Parent() != nil && obj.Parent() != types.Universe {
+			// several variables of this name (sibling or nested scopes): only one whose scope contains this point
+			if p := vc.curInstr.Pos(); vc.fn.Syntax() != nil && p >= vc.fn.Syntax().Pos() && p <= vc.fn.Syntax().End() && !obj.Parent().Contains(p) {
+				continue
+			}
+		}
 		for i := range bs {
 			b := &bs[i]
 			if b.addr {
@@ -286,6 +320,11 @@ func (vc *FnVC) resolveLocal(e *Env, name string) (*Val, error) {
 				cur := vc.curBlock
 				if cur != nil && !(def.Dominates(cur) || def == cur) {
 					continue
+				}
+				if _, isInstr := b.val.(ssa.Instruction); isInstr {
+					if _, done := vc.vals[b.val]; !done {
+						continue // defined later in this block: not yet visible at this point
+					}
 				}
 				if e.loop != nil && !e.loop.blocks[def] {
 					if _, isLoopVar := e.loop.phiVals[name]; isLoopVar {
@@ -321,6 +360,9 @@ func (vc *FnVC) resolveLocal(e *Env, name string) (*Val, error) {
 				best = b
 			}
 		}
+	}
+	if os.Getenv("GOVC_DEBUG_RESOLVE") == name && best != nil {
+		fmt.Fprintf(os.Stderr, "resolve %s at %v (cur block %v): best=%s addr=%v block=%d idx=%d\n", name, vc.curInstr, vc.curBlock, best.val.Name(), best.addr, best.block.Index, best.idx)
 	}
 	if best == nil {
 		return nil, nil
@@ -564,8 +606,10 @@ func (vc *FnVC) selectField(env *Env, v *Val, field string) (*Val, error) {
 	t := v.T
 	if p, ok := t.Underlying().(*types.Pointer); ok {
 		t = p.Elem()
+	} else if isStruct(t) && v.S != "" && !strings.HasPrefix(v.S, "undef.") {
+		// a struct value represented by the reference of the object holding it
 	} else {
-		return nil, fmt.Errorf("field %s of non-pointer, non-struct value (%s)", field, v.T)
+		return nil, fmt.Errorf("field %s of non-pointer, non-struct value (%s) term %s", field, v.T, v.S)
 	}
 	if gf := vc.G.C.ghostField(typeName(t), field); gf != nil {
 		k, gt, err := vc.ghostFieldKey(env, gf)
@@ -781,6 +825,14 @@ func (vc *FnVC) evalCall(env *Env, c ECall) (*Val, error) {
 		}
 		a, b := vc.coerceNil(args[1], args[2])
 		return &Val{T: a.T, S: smtIte(args[0].S, a.S, b.S)}, nil
+	case "strdata": // strdata(s): the data pointer of the string s (unsafe.StringData)
+		if err := evalArgs(); err != nil {
+			return nil, err
+		}
+		if len(args) != 1 || !isString(args[0].T) {
+			return nil, fmt.Errorf("strdata(s) takes one string")
+		}
+		return &Val{T: types.NewPointer(types.Typ[types.Uint8]), S: vc.strData(args[0].S)}, nil
 	case "visited": // visited(k): in an invariant of a `range` loop over a map, k has already been yielded
 		if err := evalArgs(); err != nil {
 			return nil, err
